@@ -75,8 +75,8 @@ Definition texec (st : tstate) (s : stmt) : res (option str * tstate) + unit :=
     match getslot st slot with Some v => inl (k v) | None => inr tt end in
   match s with
   | SFromInt n => ret (Ok (ts_int_line n))
-  | SToInt s => ret (Ok (Some (ts_host_string (ts_fromInt (ts_toInt s)))))
-  | SRound n => ret (Ok (Some (ts_host_string (ts_fromInt (ts_toInt (ts_fromInt (JInt n)))))))
+  | SToInt s => ret (v <- ts_toInt s ;; Ok (Some (ts_host_string (ts_fromInt v))))
+  | SRound n => ret (v <- ts_toInt (ts_fromInt (JInt n)) ;; Ok (Some (ts_host_string (ts_fromInt v))))
   | SConcat a b => ret (Ok (Some (ts_host_string (ts_concat a b))))
   | SStrEq same ne a b => ret (Ok (Some (show (if ne then b2z (negb (js_str_strict_eq a b)) else ts_str_eq a b))))
   | SPrint s => ret (Ok (Some (ts_host_string s)))
